@@ -1025,3 +1025,75 @@ def honest_family(run, replay=None):
                                        'a patient controller waits until the accessory has switched before its first encrypted request; immediate and pipelined controllers do not (see KNOWN_FINDINGS.txt D16)'],
                           rule_text='honest runs with sampled inputs; every accessory message is parsed symbolically by the reference controller (items present, each once; which nonce string opened the box under the prescribed key; the material order under which the signature verified; proof verification; stored entity) and compared by TLC with the structure the HAP specification prescribes; distinct = (code, first-request mode, number of requests); non-trivial = right code',
                           nontrivial=lambda b: b['steps'][0].get('code') == 'right', sanity=sanity, extra_cov=extra, fpfun=fp)
+
+
+# =====================================================================================================
+# TLV8 container (C16)
+# =====================================================================================================
+
+@register('C16')
+def tlv8_family(run, replay=None):
+    def gen(run):
+        thorough = run.tier == 'thorough'
+        run.model_check('TLV8', 'TLV8_MC.cfg', workers=8)
+        words = run.generate('TLV8Gen', cfgtext='CONSTANTS\n  MaxFrag = 3\n  Tags = {10, 11}\n  MaxLen = 7\n  MaxSets = %d\n  Weak = {}\nINIT Init\nNEXT Next\nINVARIANT EmitWord\nCHECK_DEADLOCK FALSE\n' % (3 if thorough else 2), timeout=900)
+        attacks = []
+        for g in ["fragment_size"]:
+            a = run.generate('TLV8Gen', cfgtext='CONSTANTS\n  MaxFrag = 3\n  Tags = {10, 11}\n  MaxLen = 7\n  MaxSets = 2\n  Weak = %s\nINIT Init\nNEXT Next\nINVARIANT NoAttack\nCHECK_DEADLOCK FALSE\n' % tla_set([g]), expect_violation=True)
+            if not a:
+                raise ToolTrouble('no attack word for guard %s' % g)
+            attacks.append((g, a[0]))
+        # the sweep: every length 0..1024 (tags cycling through 0..255), every tag at the boundary lengths, longer ones sampled
+        import random
+        r = random.Random(run.seed)
+        sweep = [[dict(tag=L % 256, n=0, len=L)] for L in range(0, 1025)]
+        sweep += [[dict(tag=t, n=0, len=L)] for t in range(256) for L in (0, 1, 255, 256)]
+        sweep += [[dict(tag=r.randrange(256), n=0, len=r.randrange(1025, 70000))] for _ in range(40 if thorough else 8)]
+        sweep += [[dict(tag=t1, n=0, len=L1), dict(tag=t2, n=0, len=L2), dict(tag=t1, n=0, len=L3)] for t1, t2, L1, L2, L3 in
+                  [(r.randrange(256), r.randrange(256), r.choice([0, 1, 254, 255, 256, 510, 511, 1024]), r.choice([0, 1, 255, 256]), r.choice([0, 1, 255, 256, 600])) for _ in range(3000 if thorough else 300)]]
+        groups = [('setword', words), ('sweep', sweep)] + [('attack:' + g, [a]) for g, a in attacks]
+        return groups, dict(set_words=len(words), lengths_0_1024_exhaustive=True, tags_0_255_at_boundaries=True)
+
+    def extra(lines, behs):
+        return dict(sets=sum(1 for x in lines if x.get('ev') == 'set'), byte_strings_parsed=sum(1 for x in lines if x.get('ev') == 'parse'),
+                    parse_ok=sum(1 for x in lines if x.get('ev') == 'parse' and x.get('ok')))
+    return generic_family(run, replay, hcv='tlv8', trace_mod='TLV8Trace', gen=gen,
+                          rules={'WellFragmented': 'C16', 'RoundTrip': 'C16', 'ParseOutcome': 'C16', 'NoInventedBytes': 'C16'}, level='model_checking',
+                          assumptions=['the model is checked with fragment size 3 and byte values that identify their origin (the algorithms are parametric in the fragment size); the trace specification judges real runs with 255',
+                                       'the reference TLV8 reader in harness/ref is the standard parser (a 255-byte item followed by an item of the same type continues the value)',
+                                       'parser inputs are at most 64 bytes so that TLC evaluates Parse / Get on each of them: random bytes, a 4-letter alphabet, prefixes and single-bit damages of valid serialisations'],
+                          rule_text='TLC-generated set-words over 2 tags x 8 model lengths mapped to the real boundary lengths (0, 1, 254, 255, 256, 509, 510, 511), every length 0..1024, every tag 0..255 at the boundary lengths, interleaved and repeated tags, longer values sampled; seeded byte strings as parser input judged line by line by the Parse and Get operators; distinct = abstract word; non-trivial = a value of at least 255 bytes or a repeated tag',
+                          nontrivial=lambda b: any(s.get('len', -1) >= 255 or s.get('n', 0) >= 3 for s in b['steps']) or len(b['steps']) > 1, extra_cov=extra,
+                          fpfun=lambda rule, b, line: '%s/%s' % (rule, 'len=%s' % ('0' if line.get('len') == 0 else '<255' if line.get('len', 0) < 255 else 'k*255' if line.get('len', 0) % 255 == 0 else '>255') if line.get('ev') == 'set' else 'parse'))
+
+
+# =====================================================================================================
+# TLV8 struct marshalling (C17)
+# =====================================================================================================
+
+TLV_SHAPES = ["leafAll", "small", "nested", "withLists", "onlyFloat", "onlyI64", "rtp.SetupEndpoints", "rtp.SetupEndpointsResponse", "rtp.StreamConfiguration",
+              "rtp.VideoStreamConfiguration", "rtp.AudioStreamConfiguration", "rtp.StreamingStatus", "rtp.Configuration"]
+
+
+@register('C17')
+def tlvstruct_family(run, replay=None):
+    def gen(run):
+        run.model_check('TLV8StructMC', 'TLV8Struct_MC.cfg', workers=4)
+        return [('shape', [[dict(shape=s)] for s in TLV_SHAPES])], dict(shapes=len(TLV_SHAPES))
+
+    def extra(lines, behs):
+        return dict(values_marshalled=sum(1 for x in lines if x.get('ev') == 'marshal'), byte_strings_decoded=sum(1 for x in lines if x.get('ev') == 'decode'),
+                    structure_compared_by_tlc=sum(1 for x in lines if x.get('ev') == 'marshal' and x.get('parsed')))
+
+    def fp(rule, b, line):
+        kinds = ''
+        if rule in ('Digits', 'RoundTrip', 'Structure'):
+            kinds = ',shape=' + str(line.get('shape'))
+        return '%s/%s%s' % (rule, line.get('ev'), kinds)
+    return generic_family(run, replay, hcv='tlvstruct', trace_mod='TLV8StructTrace', gen=gen,
+                          rules={'Structure': 'C17', 'Digits': 'C17', 'RoundTrip': 'C17', 'NoPanic': 'C17'}, level='model_checking',
+                          assumptions=['TLC decides structure (tags, byte counts, nesting, list delimiters, fragmentation) by evaluating ItemsOf on the typed tree of each value; the digits of leaves (64-bit integers, IEEE-754 bits) are compared with an independent reference encoder in the harness because TLC integers are 32-bit',
+                                       'values are seeded, with extremes (0, 1, -1, min, max) for every integer width and boundary lengths (0, 1, 254, 255, 256, 511, 1000) for strings and bytes; byte slices avoid zero bytes so that an element is never indistinguishable from an absent one',
+                                       'item order follows field order'],
+                          rule_text='synthetic struct types covering every supported field kind (8/16/32/64-bit integers, float32, bool, string, bytes, nested structs, tagged and inline lists) and the RTP message types of the library (setup endpoints, selected / supported stream configurations, streaming status), 40 (quick) / 1500 (thorough) seeded values each; truncated, damaged and random byte strings into Unmarshal; distinct = shape; non-trivial = all',
+                          nontrivial=lambda b: True, extra_cov=extra, fpfun=fp)
